@@ -70,7 +70,7 @@ def check(ctx):
     proved = ctx.prove("props/C07.v", ["proofs/PolyFacts.v"])
     ctx.build(["model/Corr.vo", "base/Farkas.vo"])
     rng = random.Random(ctx.seed)
-    n = (250 if ctx.quick else 4000) * (1 if proved else 3)
+    n = (250 if ctx.quick else 20000) * (1 if proved else 3)
     exprs, cases, seen = [], [], set()
     hist = {"dropped": 0, "kept_all": 0, "ValueError": 0, "other_error": 0, "with_context": 0}
     for k in range(n):
